@@ -9,6 +9,7 @@ import (
 	"fmt"
 	"math"
 	"os"
+	"reflect"
 	"strconv"
 
 	"github.com/paulsonkoly/calc/types/bytecode"
@@ -206,6 +207,15 @@ func cmdValReplay() {
 			c = decVal(cv)
 		}
 		r, err, pan := applyVal(op, a, b, c)
+		if reflect.DeepEqual(o["a"], o["b"]) {
+			// values are mathematical in the specification: the same array given twice (aliased storage) must behave
+			// like two equal arrays; if it does not, report the aliased result
+			r2, err2, pan2 := applyVal(op, a, a, c)
+			same := (pan2 == nil) == (pan == nil) && (err2 == nil) == (err == nil) && (err != nil || pan != nil || r.String() == r2.String())
+			if !same {
+				r, err, pan = r2, err2, pan2
+			}
+		}
 		ok := false
 		got := M{}
 		switch {
